@@ -92,5 +92,219 @@ theorem tansec2S_succ_z (y0 z0 : K) (x : List K) (d : Nat) (h : d + 1 < x.length
     ring
   · rw [if_neg hc, build_getD_prefix _ x.length (d+1) (1+i) (by omega) (by omega)]
 
+/-! ### tanh / sech² : `y' = x' z`, `z' = -2 y y'` -/
+theorem tanhsech2S_zero (y0 z0 : K) (x : List K) (h : 0 < x.length) :
+    co (tanhsech2S y0 z0 x).1 0 = y0 ∧ co (tanhsech2S y0 z0 x).2 0 = z0 := by
+  unfold tanhsech2S
+  rw [co_unzip_fst, co_unzip_snd, build_getD _ _ _ h]
+  simp [build, tanhsech2Step]
+
+theorem tanhsech2S_succ_y (y0 z0 : K) (x : List K) (d : Nat) (h : d + 1 < x.length) :
+    ((d + 1 : Nat) : K) * co (tanhsech2S y0 z0 x).1 (d+1)
+        = ∑ i ∈ range (d+1), ((1 + i : Nat) : K) * co x (1+i) * co (tanhsech2S y0 z0 x).2 (d - i) := by
+  have hne : ((d + 1 : Nat) : K) ≠ 0 := by exact_mod_cast Nat.succ_ne_zero d
+  unfold tanhsech2S
+  simp only [co_unzip_fst, co_unzip_snd]
+  rw [build_getD _ _ _ h, tanhsech2Step]
+  simp only [build_length, Nat.succ_ne_zero, if_false]
+  rw [sumRange_eq, nat_eq, mul_div_cancel₀ _ hne]
+  simp only [Nat.add_sub_cancel]
+  apply sum_congr rfl
+  intro i hi
+  have hi' := mem_range.mp hi
+  rw [build_getD_prefix _ x.length (d+1) (d+1-(1+i)) (by omega) (by omega), nat_eq]
+  have : d + 1 - (1 + i) = d - i := by omega
+  rw [this]
+
+/-- `z_{d+1}` uses the freshly computed `y_{d+1}`: in terms of the final lists,
+`(d+1) z_{d+1} = -2 Σ_{i≤d} (1+i) y_{1+i} y_{d-i}` -/
+theorem tanhsech2S_succ_z (y0 z0 : K) (x : List K) (d : Nat) (h : d + 1 < x.length) :
+    ((d + 1 : Nat) : K) * co (tanhsech2S y0 z0 x).2 (d+1)
+        = -2 * ∑ i ∈ range (d+1), ((1 + i : Nat) : K) * co (tanhsech2S y0 z0 x).1 (1+i) * co (tanhsech2S y0 z0 x).1 (d - i) := by
+  have hne : ((d + 1 : Nat) : K) ≠ 0 := by exact_mod_cast Nat.succ_ne_zero d
+  -- the value of y_{d+1} as computed inside the step
+  have hy : co (tanhsech2S y0 z0 x).1 (d+1)
+      = (sumRange 1 (d+1+1) fun k => nat k * co x k * ((build (tanhsech2Step y0 z0 x) (d+1)).getD (d+1-k) (0,0)).2) / nat (d+1) := by
+    unfold tanhsech2S
+    rw [co_unzip_fst, build_getD _ _ _ h, tanhsech2Step]
+    simp only [build_length, Nat.succ_ne_zero, if_false]
+  unfold tanhsech2S at hy ⊢
+  simp only [co_unzip_fst, co_unzip_snd] at hy ⊢
+  rw [build_getD _ _ _ h, tanhsech2Step]
+  simp only [build_length, Nat.succ_ne_zero, if_false]
+  rw [sumRange_eq]
+  simp only [nat_eq, Nat.add_sub_cancel] at hy ⊢
+  rw [mul_div_cancel₀ _ hne]
+  push_cast
+  congr 1
+  apply sum_congr rfl
+  intro i hi
+  have hi' := mem_range.mp hi
+  have hne2 : ¬ (d + 1 - (1 + i) = d + 1) := by omega
+  have hd : d + 1 - (1 + i) = d - i := by omega
+  rw [if_neg hne2, build_getD_prefix _ x.length (d+1) (d+1-(1+i)) (by omega) (by omega), hd]
+  by_cases hc : 1 + i = d + 1
+  · rw [if_pos hc, hc, hy]
+    push_cast
+    ring
+  · rw [if_neg hc, build_getD_prefix _ x.length (d+1) (1+i) (by omega) (by omega)]
+
+/-! ### arctan : `y' z = x'`, `z = 1 + x²` -/
+theorem arctanS_zero (y0 : K) (x : List K) (h : 0 < x.length) :
+    co (arctanS y0 x).1 0 = y0 ∧ co (arctanS y0 x).2 0 = 1 + co x 0 * co x 0 := by
+  unfold arctanS
+  rw [co_unzip_fst, co_unzip_snd, build_getD _ _ _ h]
+  simp [build, arctanStep]
+
+theorem arctanS_succ_z (y0 : K) (x : List K) (d : Nat) (h : d + 1 < x.length) :
+    ((d + 1 : Nat) : K) * co (arctanS y0 x).2 (d+1)
+        = 2 * ∑ i ∈ range (d+1), ((1 + i : Nat) : K) * co x (1+i) * co x (d - i) := by
+  have hne : ((d + 1 : Nat) : K) ≠ 0 := by exact_mod_cast Nat.succ_ne_zero d
+  unfold arctanS
+  simp only [co_unzip_snd]
+  rw [build_getD _ _ _ h, arctanStep]
+  simp only [build_length, Nat.succ_ne_zero, if_false]
+  rw [sumRange_eq]
+  simp only [nat_eq, Nat.add_sub_cancel]
+  rw [mul_div_cancel₀ _ hne]
+  push_cast
+  congr 1
+  apply sum_congr rfl
+  intro i hi
+  have hi' := mem_range.mp hi
+  have hd : d + 1 - (1 + i) = d - i := by omega
+  rw [hd]
+
+theorem arctanS_succ_y (y0 : K) (x : List K) (hz : 1 + co x 0 * co x 0 ≠ 0) (d : Nat) (h : d + 1 < x.length) :
+    (1 + co x 0 * co x 0) * (((d + 1 : Nat) : K) * co (arctanS y0 x).1 (d+1))
+        = ((d + 1 : Nat) : K) * co x (d+1)
+          - ∑ j ∈ range d, ((1 + j : Nat) : K) * co (arctanS y0 x).1 (1+j) * co (arctanS y0 x).2 (d - j) := by
+  have hne : ((d + 1 : Nat) : K) ≠ 0 := by exact_mod_cast Nat.succ_ne_zero d
+  have h0 : ((build (arctanStep y0 x) (d+1)).getD 0 (0,0)).2 = 1 + co x 0 * co x 0 := by
+    rw [build_getD_prefix _ x.length (d+1) 0 (by omega) (by omega)]
+    have := (arctanS_zero y0 x (by omega)).2
+    unfold arctanS at this
+    rwa [co_unzip_snd] at this
+  unfold arctanS
+  simp only [co_unzip_fst, co_unzip_snd]
+  rw [build_getD _ _ _ h, arctanStep]
+  simp only [build_length, Nat.succ_ne_zero, if_false]
+  rw [h0, sumRange_eq]
+  simp only [nat_eq, Nat.add_sub_cancel]
+  have e : ∑ i ∈ range d, ((1 + i : Nat) : K) * ((build (arctanStep y0 x) (d+1)).getD (1 + i) (0,0)).1
+        * ((build (arctanStep y0 x) (d+1)).getD (d + 1 - (1 + i)) (0,0)).2
+      = ∑ j ∈ range d, ((1 + j : Nat) : K) * ((build (arctanStep y0 x) x.length).getD (1+j) (0,0)).1
+        * ((build (arctanStep y0 x) x.length).getD (d - j) (0,0)).2 := by
+    apply sum_congr rfl
+    intro i hi
+    have hi' := mem_range.mp hi
+    have hd : d + 1 - (1 + i) = d - i := by omega
+    rw [hd, build_getD_prefix _ x.length (d+1) (1+i) (by omega) (by omega),
+      build_getD_prefix _ x.length (d+1) (d-i) (by omega) (by omega)]
+  rw [e]
+  have hz' : 1 + co x 0 ^ 2 ≠ 0 := by rwa [pow_two]
+  field_simp
+
+/-! ### arcsin / arccos : `y' z = x'`, `z' = -x y'` (they differ in the base values only) -/
+theorem arcsinS_zero (y0 z0 : K) (x : List K) (h : 0 < x.length) :
+    co (arcsinS y0 z0 x).1 0 = y0 ∧ co (arcsinS y0 z0 x).2 0 = z0 := by
+  unfold arcsinS
+  rw [co_unzip_fst, co_unzip_snd, build_getD _ _ _ h]
+  simp [build, arcsinStep]
+
+theorem arcsinS_succ_y (y0 z0 : K) (x : List K) (hz : z0 ≠ 0) (d : Nat) (h : d + 1 < x.length) :
+    z0 * (((d + 1 : Nat) : K) * co (arcsinS y0 z0 x).1 (d+1))
+        = ((d + 1 : Nat) : K) * co x (d+1)
+          - ∑ j ∈ range d, ((1 + j : Nat) : K) * co (arcsinS y0 z0 x).1 (1+j) * co (arcsinS y0 z0 x).2 (d - j) := by
+  have hne : ((d + 1 : Nat) : K) ≠ 0 := by exact_mod_cast Nat.succ_ne_zero d
+  have h0 : ((build (arcsinStep y0 z0 x) (d+1)).getD 0 (0,0)).2 = z0 := by
+    rw [build_getD_prefix _ x.length (d+1) 0 (by omega) (by omega)]
+    have := (arcsinS_zero y0 z0 x (by omega)).2
+    unfold arcsinS at this
+    rwa [co_unzip_snd] at this
+  unfold arcsinS
+  simp only [co_unzip_fst, co_unzip_snd]
+  rw [build_getD _ _ _ h, arcsinStep]
+  simp only [build_length, Nat.succ_ne_zero, if_false]
+  rw [h0, sumRange_eq]
+  simp only [nat_eq, Nat.add_sub_cancel]
+  have e : ∑ i ∈ range d, ((1 + i : Nat) : K) * ((build (arcsinStep y0 z0 x) (d+1)).getD (1 + i) (0,0)).1
+        * ((build (arcsinStep y0 z0 x) (d+1)).getD (d + 1 - (1 + i)) (0,0)).2
+      = ∑ j ∈ range d, ((1 + j : Nat) : K) * ((build (arcsinStep y0 z0 x) x.length).getD (1+j) (0,0)).1
+        * ((build (arcsinStep y0 z0 x) x.length).getD (d - j) (0,0)).2 := by
+    apply sum_congr rfl
+    intro i hi
+    have hi' := mem_range.mp hi
+    have hd : d + 1 - (1 + i) = d - i := by omega
+    rw [hd, build_getD_prefix _ x.length (d+1) (1+i) (by omega) (by omega),
+      build_getD_prefix _ x.length (d+1) (d-i) (by omega) (by omega)]
+  rw [e]
+  field_simp
+
+theorem arcsinS_succ_z (y0 z0 : K) (x : List K) (d : Nat) (h : d + 1 < x.length) :
+    ((d + 1 : Nat) : K) * co (arcsinS y0 z0 x).2 (d+1)
+        = - ∑ i ∈ range (d+1), ((1 + i : Nat) : K) * co (arcsinS y0 z0 x).1 (1+i) * co x (d - i) := by
+  have hne : ((d + 1 : Nat) : K) ≠ 0 := by exact_mod_cast Nat.succ_ne_zero d
+  -- the value of y_{d+1} as computed inside the step
+  have hy : co (arcsinS y0 z0 x).1 (d+1) = (arcsinStep y0 z0 x (build (arcsinStep y0 z0 x) (d+1))).1 := by
+    unfold arcsinS
+    rw [co_unzip_fst, build_getD _ _ _ h]
+  rw [arcsinStep] at hy
+  simp only [build_length, Nat.succ_ne_zero, if_false] at hy
+  unfold arcsinS at hy ⊢
+  simp only [co_unzip_fst, co_unzip_snd] at hy ⊢
+  rw [build_getD _ _ _ h, arcsinStep]
+  simp only [build_length, Nat.succ_ne_zero, if_false]
+  rw [sumRange_eq (lo := 1) (hi := d + 1 + 1)]
+  simp only [nat_eq, Nat.add_sub_cancel] at hy ⊢
+  rw [neg_div, mul_neg, mul_div_cancel₀ _ hne]
+  congr 1
+  apply sum_congr rfl
+  intro i hi
+  have hi' := mem_range.mp hi
+  have hd : d + 1 - (1 + i) = d - i := by omega
+  rw [hd]
+  by_cases hc : 1 + i = d + 1
+  · rw [if_pos hc, hc, hy]
+  · rw [if_neg hc, build_getD_prefix _ x.length (d+1) (1+i) (by omega) (by omega)]
+
+/-! ### real power: `x y' = r y x'` -/
+theorem powRealS_zero (r y0 : K) (x : List K) (h : 0 < x.length) : co (powRealS r y0 x) 0 = y0 := by
+  unfold powRealS
+  rw [co_build _ _ _ h]
+  simp [build, powRealStep]
+
+theorem powRealS_length (r y0 : K) (x : List K) : (powRealS r y0 x).length = x.length := by
+  simp [powRealS, build_length]
+
+theorem powRealS_succ (r y0 : K) (x : List K) (hx : co x 0 ≠ 0) (d : Nat) (h : d + 1 < x.length) :
+    co x 0 * (((d + 1 : Nat) : K) * co (powRealS r y0 x) (d+1))
+      = r * ∑ i ∈ range (d+1), co (powRealS r y0 x) (d - i) * ((1 + i : Nat) : K) * co x (1+i)
+        - ∑ j ∈ range d, co x (d - j) * ((1 + j : Nat) : K) * co (powRealS r y0 x) (1+j) := by
+  have hne : ((d + 1 : Nat) : K) ≠ 0 := by exact_mod_cast Nat.succ_ne_zero d
+  conv_lhs => unfold powRealS
+  rw [co_build _ _ _ h, powRealStep]
+  simp only [build_length, Nat.succ_ne_zero, if_false]
+  rw [sumRange_eq, sumRange_eq]
+  simp only [nat_eq, Nat.add_sub_cancel]
+  have e1 : ∑ i ∈ range (d+1), co (build (powRealStep r y0 x) (d+1)) (d + 1 - (1 + i)) * ((1 + i : Nat) : K) * co x (1 + i)
+      = ∑ i ∈ range (d+1), co (powRealS r y0 x) (d - i) * ((1 + i : Nat) : K) * co x (1+i) := by
+    apply sum_congr rfl
+    intro i hi
+    have hi' := mem_range.mp hi
+    have hd : d + 1 - (1 + i) = d - i := by omega
+    unfold powRealS
+    rw [hd, co_build_prefix _ x.length (d+1) (d-i) (by omega) (by omega)]
+  have e2 : ∑ i ∈ range d, co x (d + 1 - (1 + i)) * ((1 + i : Nat) : K) * co (build (powRealStep r y0 x) (d+1)) (1 + i)
+      = ∑ j ∈ range d, co x (d - j) * ((1 + j : Nat) : K) * co (powRealS r y0 x) (1+j) := by
+    apply sum_congr rfl
+    intro i hi
+    have hi' := mem_range.mp hi
+    have hd : d + 1 - (1 + i) = d - i := by omega
+    unfold powRealS
+    rw [hd, co_build_prefix _ x.length (d+1) (1+i) (by omega) (by omega)]
+  rw [e1, e2]
+  field_simp
+
 end
 end AV
